@@ -41,7 +41,7 @@ def gen_cases(tier, seed):
             e = {"p": "src/f%02d" % j, "k": "f", "size": r.choice([1, 100, 5000, 70000, 200000]), "seed": r.randrange(1, 1 << 30), "segs": None,
                  "mode": special | rwx, "mtime_ns": r.choice(MTIMES) + r.randrange(1000), "atime_ns": r.choice(MTIMES)}
             if r.random() < 0.6:
-                e["xattrs"] = {"user.a%d" % k: "v%d" % r.randrange(10000) for k in range(r.randint(1, 4))}
+                e["xattrs"] = {"user.a%d" % k: r.choice(["v%d" % r.randrange(10000), "", "\x00\x01\xff bin", "x" * 300]) for k in range(r.randint(1, 4))}
             if r.random() < 0.6:
                 e["uid"], e["gid"] = r.choice([(0, 0), (1000, 1000), (1, 2), (65534, 65534), (12345, 0), (0, 54321)])
             spec.append(e)
